@@ -25,7 +25,7 @@ class Game(AsyncMode):
 
     __slots__ = ["_balls_in_play", "player_list", "slam_tilted", "tilted", "ending", "num_players",
                  "_stopping_modes", "_stopping_queue", "_end_ball_event", "_at_least_one_player_event",
-                 "balls_per_game", "max_players"]
+                 "balls_per_game", "max_players", "_player_turn_starting"]
 
     def __init__(self, *args, **kwargs):
         """Initialize game."""
@@ -36,6 +36,7 @@ class Game(AsyncMode):
         self.slam_tilted = False
         self.tilted = False
         self.ending = False
+        self._player_turn_starting = False
         self.player = None
         self.num_players = None
         self._stopping_modes = []
@@ -57,6 +58,7 @@ class Game(AsyncMode):
         self.slam_tilted = False
         self.tilted = False
         self.ending = False
+        self._player_turn_starting = False
         self.num_players = 0
         self._balls_in_play = 0
         self._stopping_modes = []
@@ -552,7 +554,9 @@ class Game(AsyncMode):
             self.debug_log("Game is at max players. Cannot add another.")
             return False
 
-        if self.player and self.player.ball > 1:  # todo config setting
+        if self.player and (self.player.ball > 1 or (self.player.ball == 1 and self._player_turn_starting)):
+            # todo config setting
+            # (while a turn is starting the ball number of the player has not been incremented yet)
             self.debug_log("Current ball is after Ball 1. Cannot add player.")
             return False
 
@@ -669,6 +673,7 @@ class Game(AsyncMode):
         if not self.player:
             await self._rotate_players()
 
+        self._player_turn_starting = True
         await self.machine.events.post_async('player_turn_will_start',
                                              player=self.player,
                                              number=self.player.number)
@@ -695,6 +700,7 @@ class Game(AsyncMode):
         '''
 
         self.player.ball += 1
+        self._player_turn_starting = False
         '''player_var: ball
 
         desc: The ball number for this player. If a player gets an extra ball,
